@@ -439,6 +439,13 @@ func (st *Std) isBoolDef(lhs, rhs ast.Expr, s S) bool {
 		}
 	case *ast.UnaryExpr:
 		return r.Op == token.NOT
+	case *ast.Ident, *ast.SelectorExpr:
+		// a copy of something the rule treats as an atom (`keep := includeDeleted`)
+		if st.Eval.Atom != nil {
+			if _, _, ok := st.Eval.Atom(rhs); ok {
+				return true
+			}
+		}
 	}
 	return false
 }
@@ -764,7 +771,24 @@ func (st *Std) Client() Client {
 // result.
 func (st *Std) ReturnsNil(r *ast.ReturnStmt, s S) string {
 	info := st.F.Info()
-	if r == nil || len(r.Results) == 0 {
+	if r != nil && len(r.Results) == 0 {
+		// bare return of named results: the error result is what its variable holds
+		if fn := st.funcOfReturn(r); fn != nil && fn.Type.Results != nil && len(fn.Type.Results.List) > 0 {
+			last := fn.Type.Results.List[len(fn.Type.Results.List)-1]
+			if len(last.Names) > 0 {
+				if o := info.Defs[last.Names[len(last.Names)-1]]; o != nil && types.Identical(o.Type(), types.Universe.Lookup("error").Type()) {
+					switch s.Get("nn:" + VarID(o)) {
+					case "T":
+						return "nonnil"
+					case "F":
+						return "nil"
+					}
+				}
+			}
+		}
+		return "unknown"
+	}
+	if r == nil {
 		return "unknown"
 	}
 	e := ast.Unparen(r.Results[len(r.Results)-1])
@@ -1003,4 +1027,21 @@ func endsNoReturn(p *Prog, f *Func, b *cfg.Block) bool {
 		return true
 	}
 	return noReturn[QualName(obj)]
+}
+
+// funcOfReturn returns the function (root or a helper evaluated inline) whose body contains r.
+func (st *Std) funcOfReturn(r *ast.ReturnStmt) *Func {
+	cands := []*Func{st.F}
+	for f := range st.Inlined {
+		cands = append(cands, f)
+	}
+	var best *Func
+	for _, f := range cands {
+		if f.Body != nil && f.Body.Pos() <= r.Pos() && r.End() <= f.Body.End() {
+			if best == nil || f.Body.Pos() >= best.Body.Pos() {
+				best = f
+			}
+		}
+	}
+	return best
 }
